@@ -356,7 +356,7 @@ theorem nodeUpdate_exists {s s' : State} {frm : Addr} {gb hr : Option Coins} {ur
   simp only [bind_eq_ok, pure_eq_ok, require_eq_ok, orReject_eq_ok] at h
   obtain ⟨_, _, _, _, n, hn, s1, h1, rfl⟩ := h
   have := getNode_setNode_some h1
-  rw [nodeUpdated_addr, hk.getNode hn] at this
+  rw [nodeUpdated_addr_D, hk.getNode hn] at this
   exact this
 
 theorem nodeStatus_exists {s s' : State} {frm : Addr} {st : Status} (hk : KeysOK s)
